@@ -9,7 +9,7 @@ into blocks (`greedyBlocks`) and writes the chunk. What is asked of the answer i
 evaluates on every observed chunk: congruence of every member to its range's lower bound modulo the
 recorded divisor (`congruentB`, a conjunct of `C10.WFc`), and that the chunk is a chunk of the
 format (`AChunk.WF`: code lengths, counts, divisors fit their fields, complete prefix-free code …).
-Then for every Huffman lookup `L` with `Op.LazyOf L` the operational decompressor returns exactly
+Then for every Huffman lookup `L` with `Op.WeakLazyOf L` the operational decompressor returns exactly
 the input: the same patterns, in the same order, chunk by chunk.
 -/
 import Qco.Lemmas.Greedy
@@ -189,7 +189,7 @@ theorem fileVals_trained (fl : Flags) (d : DType) (cs : List AChunk) :
 training answers (one per chunk) whose emitted chunks exist, satisfy congruence and are chunks of
 the format: `simple_decompress` on the written file returns the input — the same patterns in the
 same order — for every `LazyOf` matcher. -/
-theorem compress_roundtrip (L : Op.Matcher) (hL : Op.LazyOf L) (gb : Nat → Nat) (d : DType) (fl : Flags)
+theorem compress_roundtrip (L : Op.Matcher) (hL : Op.WeakLazyOf L) (gb : Nat → Nat) (d : DType) (fl : Flags)
     (chunksVals : List (List Nat)) (tables : List (List Prefix × Option Nat)) (cs : List AChunk)
     (hcs : trainedChunks fl d chunksVals tables = some cs)
     (hcong : ∀ vt ∈ chunksVals.zip tables, congruentB vt.2.1 (codedUs d fl vt.1) = true)
@@ -204,7 +204,7 @@ theorem compress_roundtrip (L : Op.Matcher) (hL : Op.LazyOf L) (gb : Nat → Nat
     trainedChunks_vals fl d hd.bits_pos chunksVals tables cs hcs hcong hv]
 
 /-- … also when anything at all follows the termination byte -/
-theorem compress_roundtrip_trailing (L : Op.Matcher) (hL : Op.LazyOf L) (gb : Nat → Nat) (d : DType)
+theorem compress_roundtrip_trailing (L : Op.Matcher) (hL : Op.WeakLazyOf L) (gb : Nat → Nat) (d : DType)
     (fl : Flags) (chunksVals : List (List Nat)) (tables : List (List Prefix × Option Nat))
     (cs : List AChunk) (hcs : trainedChunks fl d chunksVals tables = some cs)
     (hcong : ∀ vt ∈ chunksVals.zip tables, congruentB vt.2.1 (codedUs d fl vt.1) = true)
@@ -221,7 +221,7 @@ theorem compress_roundtrip_trailing (L : Op.Matcher) (hL : Op.LazyOf L) (gb : Na
 /-- **C01 at model level, chunk API.** `header()` returns the flags; then alternating
 `chunk_metadata()` / `chunk_body()` return, chunk by chunk, the metadata as written and exactly the
 chunk's input numbers; then `chunk_metadata()` returns `None` and all input is consumed. -/
-theorem compress_roundtrip_chunk_api (L : Op.Matcher) (hL : Op.LazyOf L) (gb : Nat → Nat) (d : DType)
+theorem compress_roundtrip_chunk_api (L : Op.Matcher) (hL : Op.WeakLazyOf L) (gb : Nat → Nat) (d : DType)
     (fl : Flags) (chunksVals : List (List Nat)) (tables : List (List Prefix × Option Nat))
     (cs : List AChunk) (hcs : trainedChunks fl d chunksVals tables = some cs)
     (hcong : ∀ vt ∈ chunksVals.zip tables, congruentB vt.2.1 (codedUs d fl vt.1) = true)
@@ -309,7 +309,7 @@ theorem history_accepted (gb : Nat → Nat) (d : DType) (cfg : CConfig) (ho : cf
 /-- **C01 through the compressor model.** Any history of calls that is `header`, one `chunk` call
 per chunk of the input (with any training answer satisfying the hypotheses), `footer`, with drains
 anywhere: everything the history drained followed by what is still pending decodes to the input. -/
-theorem compress_model_roundtrip (L : Op.Matcher) (hL : Op.LazyOf L) (gb : Nat → Nat) (d : DType)
+theorem compress_model_roundtrip (L : Op.Matcher) (hL : Op.WeakLazyOf L) (gb : Nat → Nat) (d : DType)
     (cfg : CConfig) (chunksVals : List (List Nat)) (tables : List (List Prefix × Option Nat))
     (cs : List AChunk) (hcs : trainedChunks cfg.flags d chunksVals tables = some cs)
     (hcong : ∀ vt ∈ chunksVals.zip tables, congruentB vt.2.1 (codedUs d cfg.flags vt.1) = true)
@@ -364,7 +364,7 @@ theorem drained_eq_total_of_last_drain (gb : Nat → Nat) (d : DType) (cfg : CCo
   rw [key ops CSt.init [] [], List.append_nil]
 
 /-- the history `header; chunk …; chunk; footer; drain`: the drained bits decode to the input -/
-theorem compress_model_roundtrip_drained (L : Op.Matcher) (hL : Op.LazyOf L) (gb : Nat → Nat)
+theorem compress_model_roundtrip_drained (L : Op.Matcher) (hL : Op.WeakLazyOf L) (gb : Nat → Nat)
     (d : DType) (cfg : CConfig) (chunksVals : List (List Nat))
     (tables : List (List Prefix × Option Nat)) (cs : List AChunk)
     (hcs : trainedChunks cfg.flags d chunksVals tables = some cs)
@@ -478,7 +478,7 @@ example : (Op.simpleDecompress Op.eagerMatcher exGb exU32
       (Op.write Op.St.init
         (C09.total exGb exU32 exCfg [.header, .chunk 3 exChunk, .drain, .footer, .drain]))).1
     = .ok [5, 9, 5] :=
-  (compress_model_roundtrip Op.eagerMatcher Op.eager_lazyOf exGb exU32 exCfg [exVals] [(exPs, none)]
+  (compress_model_roundtrip Op.eagerMatcher Op.eager_weakLazyOf exGb exU32 exCfg [exVals] [(exPs, none)]
     [exChunk] exTrained (by decide)
     (by intro c hc; rw [List.mem_singleton.mp hc]; exact exChunk_WF)
     exU32_ok exU32_ok exU32_signed_ok (by decide) (by decide) (by decide)
